@@ -251,6 +251,13 @@ fn check(tier: &str) -> i32 {
         }
     }
     samples.truncate(3);
+    if let Ok(path) = std::env::var("VERIF_DUMP_DIGESTS") {
+        let mut text = String::new();
+        for (i, d) in &digests {
+            text.push_str(&format!("B {i} {d:x}\n"));
+        }
+        let _ = std::fs::write(format!("{path}.B"), text);
+    }
     viols.sort_by_key(|v| v.0);
     let mut reported: Vec<(Violation, PathBuf)> = Vec::new();
     let mut known_hits: BTreeSet<String> = BTreeSet::new();
